@@ -25,10 +25,18 @@ type TableCfg struct {
 	SB          int64       `json:"sb"`
 	BB          int64       `json:"bb"`
 	MinPlayers  int         `json:"min_players"`
+	ChipUnit    int64       `json:"min_chip_unit"`
 	ActionTime  int         `json:"action_time"`
 	Interval    int         `json:"interval"`
 	MaxDuration int         `json:"max_duration"`
 	Players     []PlayerCfg `json:"players"`
+}
+
+func (c TableCfg) chipUnit() int64 {
+	if c.ChipUnit > 0 {
+		return c.ChipUnit
+	}
+	return 1
 }
 
 func (c TableCfg) Setting(withPlayers bool) pt.TableSetting {
@@ -41,7 +49,7 @@ func (c TableCfg) Setting(withPlayers bool) pt.TableSetting {
 			MaxDuration:         c.MaxDuration,
 			TableMaxSeatCount:   c.Seats,
 			TableMinPlayerCount: c.MinPlayers,
-			MinChipUnit:         1,
+			MinChipUnit:         c.chipUnit(),
 			ActionTime:          c.ActionTime,
 		},
 		Blind: pt.TableBlindState{Level: c.Level, Ante: c.Ante, Dealer: c.Dealer, SB: c.SB, BB: c.BB},
@@ -66,6 +74,7 @@ type GenOpts struct {
 	NoAnte             bool
 	Interval           int
 	ActionTime         int
+	VaryMinCount       bool // table minimum player count 2..4 instead of always 2
 }
 
 // GenTable derives a configuration from the PRNG.
@@ -89,6 +98,8 @@ func GenTable(r *rand.Rand, o GenOpts) TableCfg {
 	if c.ActionTime == 0 {
 		c.ActionTime = 10
 	}
+	// the engine never reads the chip unit: stacks that are no multiple of it must be played as they are
+	c.ChipUnit = []int64{1, 1, 1, 5, 10, 25, 100}[r.Intn(7)]
 	bb := []int64{2, 10, 20, 100, 7}[r.Intn(5)]
 	switch r.Intn(6) {
 	case 0: // no small blind, nothing is collected (pokerface skips the collection)
@@ -149,6 +160,12 @@ func GenTable(r *rand.Rand, o GenOpts) TableCfg {
 			chips = unit*50 + r.Int63n(unit*150)
 		}
 		c.Players = append(c.Players, PlayerCfg{ID: fmt.Sprintf("p%d", i), Seat: perm[i], Chips: chips})
+	}
+	if o.VaryMinCount {
+		c.MinPlayers = []int{2, 2, 3, 4}[r.Intn(4)]
+		if c.MinPlayers > n {
+			c.MinPlayers = n
+		}
 	}
 	return c
 }
